@@ -12,15 +12,15 @@ def opt' {α : Type} (p : Parser α) : Parser (Option α) := fun s => match p s 
 def handleC15 (inp obs : List String) : Verdict :=
   let parsed := (do
     let tmp ← nat; let n ← nat; let c ← nat; let comp ← opt nat
-    let fail ← nat; let failAt ← nat; let consume ← nat; let order ← nat; let obsAt ← nat; let _builderOrder ← opt' nat
+    let fail ← nat; let failAt ← nat; let consume ← nat; let order ← nat; let obsAt ← nat; let _builderOrder ← opt' nat; let _heavy ← opt' nat
     pure (tmp, n, c, comp, fail, failAt, consume, order, obsAt)).run inp
   let pobs := (do
     let t ← peek?
     if t == some "abort" || t == some "panic" then pure none else do
       let base ← nat; let newDirs ← nat; let newFiles ← nat
       let taken ← bool; let top ← nat; let inside ← nat; let fds ← nat
-      let afterNew ← nat; let afterMissing ← nat; let otherNew ← nat; let result ← nat; let yielded ← nat; let otherAlive ← nat
-      pure (some (base, newDirs, newFiles, taken, top, inside, fds, afterNew, afterMissing, otherNew, result, yielded, otherAlive))).run obs
+      let afterNew ← nat; let afterMissing ← nat; let otherNew ← nat; let result ← nat; let yielded ← nat; let otherAlive ← nat; let fdsOut ← opt' nat
+      pure (some (base, newDirs, newFiles, taken, top, inside, fds, afterNew, afterMissing, otherNew, result, yielded, otherAlive, fdsOut.getD 0))).run obs
   match parsed, pobs with
   | some ((tmp, n, c, comp, fail, failAt, consume, order, obsAt), _), some (o, _) =>
     let cm := max c 1
@@ -29,17 +29,20 @@ def handleC15 (inp obs : List String) : Verdict :=
       [s!"tmpdir-{if tmp == 1 then "explicit" else "default"}", s!"drop-{if order == 0 then "iterator-first" else "sorter-first"}"] ++
       (match fail with | 0 => ["no-failure"] | 1 => ["panic-in-input"] | 2 => ["panic-in-comparator"] | _ => ["sort-returns-error"]) ++
       (if fail == 0 then (if consume ≥ n then ["drained"] else if consume == 0 then ["never-consumed"] else ["dropped-after-k"]) else []) ++
-      (if comp.isSome then ["compressed"] else [])
-    let classes := classes ++ (match obs with | _ => [])
+      (if comp.isSome then ["compressed"] else []) ++
+      (match ((do let _ ← rep tok 10; let _ ← (if comp.isSome then tok else pure ""); let h ← nat; pure h).run inp) with
+        | some (h, _) => if h > 0 then ["heap-owning-records-MiB-runs"] else []
+        | none => [])
     match o with
     | none => { kind := "specfail", nontrivial := true, classes, detail := "the lifetime script aborted or panicked outside sort_by" }
-    | some (_base, newDirs, newFiles, taken, top, inside, fds, afterNew, afterMissing, otherNew, result, yielded, otherAlive) =>
+    | some (_base, newDirs, newFiles, taken, top, inside, fds, afterNew, afterMissing, otherNew, result, yielded, otherAlive, fdsOut) =>
       let nontrivial := taken && chunksAtObs ≥ 1
       -- the property
       let specFail : Option String :=
         if afterNew != 0 || afterMissing != 0 then some s!"after the sorter and the iterator were dropped the configured directory has {afterNew} new and {afterMissing} missing entries"
         else if otherNew != 0 then some s!"{otherNew} entries were created outside the configured directory and are still there after the drops"
         else if otherAlive != 0 then some s!"while the sorter was alive {otherAlive} entries existed outside the configured directory (under the other temporary directory)"
+        else if fdsOut != 0 then some s!"while the sort was in progress {fdsOut} files created by it were open outside the configured directory"
         else if newDirs + newFiles > 1 then some s!"build() created {newDirs} directories and {newFiles} files under the configured directory"
         else if taken && top > 1 then some s!"during the sort {top} new entries exist directly under the configured directory"
         else none
